@@ -63,7 +63,7 @@ def _s10_class(ex, st):
 
 finding_class('S10', _s10_class)
 
-contract(C + 'TileManager.is_cached', props=['C13'],
+contract(C + 'TileManager.is_cached', props=['C13', 'C08'],
          types=dict(tile='opaque', dimensions='opaque'), returns='bool',
          requires=['not isinstance(tile, tuple)'],      # the Tile-object form (a bare coordinate is wrapped in a Tile first)
          default_callee='opaque', opaque_fields=OF, stable_fields=['coord'],
